@@ -15,6 +15,19 @@ def near(a, b, tol=TOL):
     return abs(a - b) <= tol * sc(max(abs(a), abs(b)))
 
 
+_RATE = []
+
+
+def stock_commission_rate():
+    """the stock commission rate as regenerated from the source (lean/RQ/GenR/Consts.lean)"""
+    if not _RATE:
+        import re, os
+        p = os.path.join(os.path.dirname(os.path.dirname(os.path.abspath(__file__))), "lean", "RQ", "GenR", "Consts.lean")
+        m = re.search(r"def stockCommissionRate : Option R := some \(([0-9.]+)", open(p).read())
+        _RATE.append(float(m.group(1)) if m else float("nan"))
+    return _RATE[0]
+
+
 def replay_of(tr):
     return {"config": {k: v for k, v in tr.cfg.items()}, "instruments": [s["id"] for s in tr.S["stocks"]] + [f["id"] for f in tr.S["futures"]],
             "range": "%s..%s" % (tr.S["start"], tr.S["end"]), "run_seed": getattr(tr, "run_seed", None), "run_index": getattr(tr, "run_index", None)}
@@ -305,6 +318,32 @@ def c09_monitor(ctx, tr, ix):
                     reserved[("resync", t, len(tr.events))] = [t, 1, a["frozen"], 0]
             if a["frozen"] < -1e-6:
                 ctx.witness("C09.2", {"kind": "frozen_negative"}, "%s at %s: %s reserved cash %r" % (kind, when, t, a["frozen"]), rp)
+        # "zero when no order is open" against the BROKER's own book (not against the announcements): at the points where no order is in flight
+        if kind in ("POST_OPEN_AUCTION", "POST_BAR", "PRE_AFTER_TRADING", "POST_AFTER_TRADING", "PRE_SETTLEMENT", "POST_SETTLEMENT", "POST_BEFORE_TRADING", "CALL") and not sim.get("signal"):
+            open_now = e.get("open_after") if kind == "CALL" else e.get("open")
+            if open_now is not None and len(open_now) == 0:
+                for t, a in acc.items():
+                    if not nan_in(a) and abs(a["frozen"]) > 1e-6:
+                        ctx.witness("C09.2", {"kind": "reserved_cash_without_open_order"}, "%s at %s: the broker holds no open order but %s reserved cash is %r" % (kind, when, t, a["frozen"]), rp)
+                        for k in [k for k, v in reserved.items() if v[0] == t]:
+                            del reserved[k]
+                        if abs(a["frozen"]) > 1e-9:
+                            reserved[("resync", t, len(tr.events))] = [t, 1, a["frozen"], 0]
+    # the estimated fee of a stock order is the published schedule: max(price x quantity x rate x multiplier, minimum) (+ tax for sells of shares)
+    cost_cfg = cfgk.get("cost") or {}
+    for v in tr.rec.validations:
+        if v["validator"] != "cash" or v["inputs"].get("order_cost") is None:
+            continue
+        o = v["order"]
+        s_ = ix.stock.get(o["book"])
+        if s_ is None or o["effect"] != "OPEN" or not o["is_buy"] or o["frozen_price"] != o["frozen_price"]:
+            continue
+        mult_, minc_ = cost_cfg.get("stock_commission_multiplier", 1), cost_cfg.get("cn_stock_min_commission", 5)
+        est = max(o["frozen_price"] * o["qty"] * stock_commission_rate() * mult_, minc_)
+        if abs(est - v["inputs"]["order_cost"]) > 1e-6 * max(1.0, est):
+            ctx.witness("C09.1", {"kind": "estimated_fee_not_schedule"}, "opening order %s x %s @ %r: estimated fee %r, schedule max(value x rate x %s, %s) = %r"
+                        % (o["book"], o["qty"], o["frozen_price"], v["inputs"]["order_cost"], mult_, minc_, est), rp)
+            break
     # acceptance => covered, at the moment of validation (legs of one call are validated one after the other)
     if risk_cash:
         validated = {}
@@ -598,6 +637,11 @@ def c04_monitor(ctx, tr, ix):
                 if o["status"] not in FINAL and o["id"] not in e["open_after"]:
                     ctx.witness("C04.4", {"kind": "returned_order_dangling", "api": e["api"], "status": o["status"]},
                                 "%s%r at %s returned order %s in status %s which is neither final nor among the open orders" % (e["api"], e["args"], when, o["id"] % 100000, o["status"]), rp)
+                # an order that is handed back REJECTED / CANCELLED after it had reached the broker was announced so (exactly once: the "at most" half is above)
+                if o["status"] in ("REJECTED", "CANCELLED") and o["id"] in status and announced_final[o["id"]] == 0 and not tr.cfg["sim"].get("signal"):
+                    ctx.witness("C04.2", {"kind": "final_never_announced", "status": o["status"]},
+                                "%s%r at %s: order %s is %s but no ORDER_UNSOLICITED_UPDATE / CANCELLATION_PASS / CREATION_REJECT was published for it" % (e["api"], e["args"], when, o["id"] % 100000, o["status"]), rp)
+                    announced_final[o["id"]] += 1
         elif kind == "POST_AFTER_TRADING":
             n += 1
             for oid in e["open"]:
@@ -608,6 +652,8 @@ def c04_monitor(ctx, tr, ix):
         st = o.status.name
         if st not in FINAL and oid in status:
             ctx.witness("C04.5", {"kind": "never_final", "status": st}, "order %s ends the run in status %s" % (oid % 100000, st), rp)
+        if st in ("REJECTED", "CANCELLED") and oid in status and announced_final[oid] == 0 and not tr.cfg["sim"].get("signal"):
+            ctx.witness("C04.2", {"kind": "final_never_announced", "status": st}, "order %s ends the run %s but that was never announced" % (oid % 100000, st), rp)
     ctx.evaluations += n
     ctx.stats["c04_observations"] += n
 
